@@ -169,7 +169,90 @@ func c12Faults() []c12Fault {
 		f("leaf-issued-by-processor-ca(O-3)", func(s *world.Spec, _ *rand.Rand) { s.Cert("inter").CN = "Intel SGX PCK Processor CA" }),
 		f("leaf-issued-by-unknown-ca", func(s *world.Spec, _ *rand.Rand) { s.Cert("inter").CN = "Intel SGX PCK Other CA" }),
 		f("leaf-without-sgx-extension", func(s *world.Spec, _ *rand.Rand) { s.Cert("leaf").Sgx.Absent = true }),
+		// header maps that carry the issuer-chain name twice, in two spellings: only the exact name is the header
+		f("tcbinfo-header-also-in-lower-case(unverifiable-chain)", func(s *world.Spec, _ *rand.Rand) { s.TcbResp.HdrDecoy = "lower" }),
+		f("tcbinfo-header-also-in-upper-case(unverifiable-chain)", func(s *world.Spec, _ *rand.Rand) { s.TcbResp.HdrDecoy = "upper" }),
+		f("qeidentity-header-also-in-lower-case(unverifiable-chain)", func(s *world.Spec, _ *rand.Rand) { s.QeResp.HdrDecoy = "lower" }),
+		f("qeidentity-header-also-in-upper-case(unverifiable-chain)", func(s *world.Spec, _ *rand.Rand) { s.QeResp.HdrDecoy = "upper" }),
+		f("pckcrl-header-also-in-lower-case(unverifiable-chain)", func(s *world.Spec, _ *rand.Rand) { s.PckCrlHdrDecoy = "lower" }),
+		f("pckcrl-header-also-in-upper-case(unverifiable-chain)", func(s *world.Spec, _ *rand.Rand) { s.PckCrlHdrDecoy = "upper" }),
+		f("tcbinfo-header-only-in-lower-case", func(s *world.Spec, _ *rand.Rand) { s.TcbResp.HdrDecoy = "only-lower" }),
+		f("qeidentity-header-only-in-upper-case", func(s *world.Spec, _ *rand.Rand) { s.QeResp.HdrDecoy = "only-upper" }),
+		f("pckcrl-header-only-in-lower-case", func(s *world.Spec, _ *rand.Rand) { s.PckCrlHdrDecoy = "only-lower" }),
 	}
+}
+
+// c12UnsetCrlInstants: a caller who keeps ONE time set, leaves its two CRL instants unset (zero time.Time: year 1, at which
+// no CRL has expired) and moves the instants it did set, in place, between two calls.  The CRLs are short-lived: at the later
+// chain instant they are past their next update — which does not matter, because the CRL instants are still unset.  The
+// shared options value must give what fresh options with the same visible settings give.
+func c12UnsetCrlInstants(r *hx.Run) {
+	n := map[bool]int{true: 160, false: 16}[r.Tier == "thorough"]
+	for i := 0; i < n; i++ {
+		rng := c05CaseRng(r, 0x52, i)
+		now := time.Now()
+		base := now.Truncate(time.Hour)
+		s := c12Wall(rng, now)
+		s.PckCrl.NextUpdate = base.Add(10 * time.Hour)
+		for k := range s.RootCrls {
+			s.RootCrls[k].NextUpdate = base.Add(10 * time.Hour)
+		}
+		s.Fault = "crls-short-lived(10h)+crl-instants-unset"
+		w := world.Build(s)
+		var own []*x509.Certificate
+		for _, role := range w.Spec.Pool {
+			own = append(own, w.Certs[role].Cert)
+		}
+		T := [5]time.Time{base.Add(time.Hour + time.Duration(rng.IntN(3600))*time.Second), base.Add(2 * time.Hour), base.Add(3 * time.Hour)}
+		if i%4 == 3 { // only one of the two left unset
+			T[3+rng.IntN(2)] = base.Add(4 * time.Hour)
+		}
+		ts := c12Set(&T)
+		sh := &c12Shared{o: &verify.Options{Now: ts}, intended: &T}
+		first := c05Levels[i%len(c05Levels)]
+		tags := []string{"history:unset-crl-instants", "family:unset-crl-instants", fmt.Sprintf("first:gc%dcr%d", hx.B(first[0]), hx.B(first[1]))}
+		c12Step(r, sh, w, first[0], first[1], own, w.Spec.Pool == nil, append(tags, "step:1")...)
+		d := 20*time.Hour + time.Duration(i%3)*24*time.Hour
+		T2 := T
+		for k := 0; k < 5; k++ {
+			if !T[k].IsZero() {
+				T2[k] = T[k].Add(d)
+			}
+		}
+		// in place: the fields the caller set are moved, the others are not touched
+		ts.PckCertChain, ts.TcbInfo, ts.QeIdentity = T2[0], T2[1], T2[2]
+		if !T[3].IsZero() {
+			ts.PckCrl = T2[3]
+		}
+		if !T[4].IsZero() {
+			ts.RootCaCrl = T2[4]
+		}
+		sh.intended = &T2
+		c12Step(r, sh, w, true, true, own, w.Spec.Pool == nil, append(tags, "step:2", "moved-in-place:"+d.String())...)
+	}
+}
+
+// c12Repeat: the verdict depends only on the quote, the option settings and the fetched data — the same world verified again
+// and again through fresh options gives one verdict and one request sequence (harness-only line per world).
+func c12Repeat(r *hx.Run, w *world.World, times int, tags ...string) {
+	first, fail := "", ""
+	for k := 0; k < times; k++ {
+		vr := runVerify(w)
+		if vr.panicked {
+			fail = "crash in verify.TdxQuote"
+			break
+		}
+		if k == 0 {
+			first = vr.obs
+		} else if vr.obs != first && fail == "" {
+			fail = fmt.Sprintf("call %d of %d identical verifications (fresh options each, same quote, same settings, same responses) gives %q, the first gave %q [world: %s, gc=%v cr=%v]", k+1, times, vr.obs, first, w.Spec.Fault, w.Spec.GC, w.Spec.CR)
+		}
+	}
+	obs := "stable"
+	if fail != "" {
+		obs = "unstable"
+	}
+	r.Emit(fmt.Sprintf("# C12.repeat fault=%s gc=%v cr=%v", w.Spec.Fault, w.Spec.GC, w.Spec.CR), obs, fail, "repeat|"+w.Spec.Fault+fmt.Sprint(w.Spec.GC, w.Spec.CR), true, append(tags, "family:repeat", "repeat:"+strings.SplitN(first, " ", 2)[0])...)
 }
 
 // ------------------------------------------------------------------ oracle parts
@@ -454,6 +537,19 @@ func c12(r *hx.Run) {
 			c12Step(r, sh, w, o[0], o[1], pool, poolNil, hist, fmt.Sprintf("step:%d", k+1), nowTag, poolTag, "fault:"+w.Spec.Fault, "family:history")
 		}
 	}
+	// (d) every fault, verified repeatedly at the two collateral levels
+	for i, f := range faults {
+		rng := c05CaseRng(r, 0x42, i)
+		s := c12Wall(rng, time.Now())
+		f.apply(s, rng)
+		s.Fault = f.name
+		w := world.Build(s)
+		for _, o := range [][2]bool{{true, true}, {true, false}} {
+			w.Spec.GC, w.Spec.CR = o[0], o[1]
+			c12Repeat(r, w, map[bool]int{true: 40, false: 8}[r.Tier == "thorough"], "fault:"+f.name)
+		}
+	}
+	c12UnsetCrlInstants(r)
 	c06Reissue(r)
 	// through one shared options value: a world is accepted, then its endpoints start serving CRLs that list one of its
 	// certificates — nothing the earlier call established (authenticated chains, scanned lists) may stand in for this call's checks
